@@ -221,9 +221,9 @@ theorem readDigits_append (w : Str) (rev : Str) (x : Char) (tl : Str)
     simp
 
 /-- `IsNext(s)` when `s` is in front and at least one more rune follows: true, cursor behind `s` -/
-theorem isNextGo_true (s : Str) (i : Nat) (rev : Str) (x : Char) (tl : Str) :
-    isNextGo s i (atRem rev (s ++ x :: tl)) = (true, atRem (s.reverse ++ rev) (x :: tl)) := by
-  induction s generalizing i rev with
+theorem isNextGo_true (s : Str) (c0 : Cursor) (rev : Str) (x : Char) (tl : Str) :
+    isNextGo s c0 (atRem rev (s ++ x :: tl)) = (true, atRem (s.reverse ++ rev) (x :: tl)) := by
+  induction s generalizing rev with
   | nil => simp [isNextGo]
   | cons e es ih =>
     have h : (atRem rev ((e :: es) ++ x :: tl)).nextOrStay = atRem (e :: rev) (es ++ x :: tl) := by
@@ -234,37 +234,27 @@ theorem isNextGo_true (s : Str) (i : Nat) (rev : Str) (x : Char) (tl : Str) :
 
 theorem isNext_true (s : Str) (rev : Str) (x : Char) (tl : Str) :
     isNext s (atRem rev (s ++ x :: tl)) = (true, atRem (s.reverse ++ rev) (x :: tl)) :=
-  isNextGo_true s 0 rev x tl
+  isNextGo_true s _ rev x tl
 
 /-- `IsNext(s)` when the text agrees with `s` on `p` and then differs (with the differing rune
 present in the text): false, and the cursor is back where it started. -/
 theorem isNextGo_mismatch (p : Str) (y : Char) (s' : Str) (x : Char) (tl : Str) (hxy : x ≠ y)
-    (p0 : Str) (rev : Str) :
-    isNextGo (p ++ y :: s') p0.length (atRem (p0.reverse ++ rev) (p ++ x :: tl)) =
-      (false, atRem rev (p0 ++ p ++ x :: tl)) := by
-  induction p generalizing p0 with
-  | nil =>
-    simp only [List.nil_append, atRem_cons, isNextGo, hxy, if_false]
-    have := unread_append p0 rev x tl
-    simp only [atRem_cons] at this
-    rw [this]; simp
+    (c0 : Cursor) (rev : Str) :
+    isNextGo (p ++ y :: s') c0 (atRem rev (p ++ x :: tl)) = (false, c0) := by
+  induction p generalizing rev with
+  | nil => simp [isNextGo, hxy]
   | cons a p ih =>
-    have h : (atRem (p0.reverse ++ rev) ((a :: p) ++ x :: tl)).nextOrStay
-        = atRem ((p0 ++ [a]).reverse ++ rev) (p ++ x :: tl) := by
-      cases p <;> simp [nextOrStay, next]
+    have h : (atRem rev ((a :: p) ++ x :: tl)).nextOrStay = atRem (a :: rev) (p ++ x :: tl) := by
+      cases p <;> rfl
     simp only [List.cons_append, isNextGo]
     rw [if_pos (by simp)]
     have h' := h
     simp only [List.cons_append] at h'
-    rw [h']
-    have := ih (p0 ++ [a])
-    simp only [List.length_append, List.length_cons, List.length_nil] at this
-    rw [this]; simp
+    rw [h', ih]
 
 theorem isNext_mismatch (p : Str) (y : Char) (s' : Str) (x : Char) (tl : Str) (hxy : x ≠ y) (rev : Str) :
-    isNext (p ++ y :: s') (atRem rev (p ++ x :: tl)) = (false, atRem rev (p ++ x :: tl)) := by
-  have := isNextGo_mismatch p y s' x tl hxy [] rev
-  simpa [isNext] using this
+    isNext (p ++ y :: s') (atRem rev (p ++ x :: tl)) = (false, atRem rev (p ++ x :: tl)) :=
+  isNextGo_mismatch p y s' x tl hxy _ rev
 
 /-- the first rune already differs -/
 theorem isNext_head_ne (e : Char) (es : Str) (x : Char) (tl : Str) (h : x ≠ e) (rev : Str) :
